@@ -497,6 +497,9 @@ type JOSEInput struct {
 	Signer         JOSEKey // legitimate signer (Kid = the key id in the token, may be "")
 	Foreign        JOSEKey // ANOTHER party whose key the consumer can resolve under Foreign.Kid
 	Rogue          JOSEKey // attacker key that nothing resolves
+	// NearMiss are further resolvable parties whose DID (and hence kid) is a near-miss of the signer's (see NearMissDIDs),
+	// each with its own key; Name = the kind of near-miss
+	NearMiss []JOSEKey
 	FlipStride     int     // payload-segment flip stride (header and signature segments are always flipped at every position); <=1: every position
 	FlipAllBits    bool    // flip each of the six bits of every flipped character (default: the lowest bit; all six only in the last two characters)
 	// KeepHeader lists protected-header members the re-signing variants must not drop (default: all are kept).
@@ -619,6 +622,13 @@ func JOSEVariants(in JOSEInput) ([]JOSEVariant, error) {
 	}
 	resign("key/foreign-party", "key/foreign-party-own-kid", in.Foreign, fAlg, setKid(in.Foreign.Kid))
 	resign("key/foreign-party", "key/foreign-party-victim-kid", in.Foreign, fAlg, nil)
+	for _, nm := range in.NearMiss {
+		nm := nm
+		if !hadKid {
+			break
+		}
+		resign("key/near-miss", "key/near-miss:"+nm.Name, nm, DefaultAlg(nm.Family), func(h map[string]any) { h["kid"] = nm.Kid })
+	}
 	resign("key/rogue", "key/rogue-victim-kid", in.Rogue, rAlg, nil)
 	resign("key/rogue", "key/rogue-no-kid", in.Rogue, rAlg, func(h map[string]any) { delete(h, "kid") })
 	resign("key/rogue", "key/rogue-empty-kid", in.Rogue, rAlg, func(h map[string]any) { h["kid"] = "" })
@@ -1130,4 +1140,39 @@ func VerifyECDSALoose(alg string, pub crypto.PublicKey, input, sig []byte) bool 
 	}
 	n := len(sig) / 2
 	return ecdsa.Verify(k, d, new(big.Int).SetBytes(sig[:n]), new(big.Int).SetBytes(sig[n:]))
+}
+
+// NearMissDIDs derives from a DID the identifiers that a sloppy comparison (prefix, case-insensitive, method-blind,
+// separator-blind) would take for it.
+func NearMissDIDs(d string) []struct{ Kind, DID string } {
+	type nm = struct{ Kind, DID string }
+	out := []nm{
+		{"ext-colon-seg", d + ":evil"}, {"ext-dot-host", d + ".evil"}, {"ext-dash-2", d + "-2"}, {"ext-char", d + "x"}, {"ext-digit", d + "2"},
+		{"ext-slash-path", d + "/evil"}, {"ext-percent", d + "%3Aevil"},
+	}
+	if len(d) > 12 {
+		out = append(out, nm{"proper-prefix", d[:len(d)-1]})
+	}
+	// case change of the last letter of the method-specific id
+	b := []byte(d)
+	for i := len(b) - 1; i > 8; i-- {
+		if (b[i] >= 'a' && b[i] <= 'z') || (b[i] >= 'A' && b[i] <= 'Z') {
+			b[i] ^= 0x20
+			out = append(out, nm{"case-change", string(b)})
+			break
+		}
+	}
+	parts := strings.SplitN(d, ":", 3)
+	if len(parts) == 3 {
+		other := "web"
+		if parts[1] == "web" {
+			other = "nuts"
+		}
+		out = append(out, nm{"other-method", "did:" + other + ":" + parts[2]})
+		out = append(out, nm{"method-ext", "did:" + parts[1] + "x:" + parts[2]})
+		if i := strings.LastIndex(parts[2], ":"); i > 0 {
+			out = append(out, nm{"parent", "did:" + parts[1] + ":" + parts[2][:i]}) // e.g. the host's root DID of a did:web tenant
+		}
+	}
+	return out
 }
